@@ -7,6 +7,7 @@
 #include <stdio.h>
 
 #include "error.h"
+#include "handle.h"
 #include "pipe.h"
 
 static FILE *stream_to_file(REPROC_STREAM stream)
@@ -73,7 +74,15 @@ int redirect_path(int *child, REPROC_STREAM stream, const char *path)
     return -errno;
   }
 
-  *child = r;
+  int handle = r;
+
+  r = handle_move_above_std(&handle);
+  if (r < 0) {
+    handle_destroy(handle);
+    return r;
+  }
+
+  *child = handle;
 
   return 0;
 }
